@@ -134,10 +134,38 @@ impl<T> Waited<T> {
     }
 }
 
+/// Number of runnable scheduling entities right now vs. CPUs (Linux `/proc/loadavg`, 4th field):
+/// 1.0 on a machine with idle cores, < 1.0 when everything — the endpoint under test included —
+/// only gets a share of a core.
+fn cpu_share() -> f64 {
+    static NCPU: std::sync::OnceLock<f64> = std::sync::OnceLock::new();
+    let ncpu = *NCPU.get_or_init(|| std::thread::available_parallelism().map(|n| n.get() as f64).unwrap_or(1.0));
+    let runnable = std::fs::read_to_string("/proc/loadavg").ok().and_then(|t| t.split_whitespace().nth(3).and_then(|f| f.split('/').next().and_then(|r| r.parse::<f64>().ok()))).unwrap_or(1.0);
+    (ncpu / runnable.max(ncpu)).clamp(0.02, 1.0)
+}
+
+/// `f` gets `d` of *machine-share-adjusted* time: the clock of the bound advances at the share of a
+/// CPU a runnable thread currently gets (sampled every 100 ms), so a bound of 3 s means "3 s on a
+/// machine with idle cores" and stretches when the machine is oversubscribed (hard cap 30 x `d`).
+/// Verdicts that depend on a bound expiring therefore do not depend on what else the machine runs.
 pub async fn within<F: std::future::Future>(d: Duration, f: F) -> Waited<F::Output> {
-    match tokio::time::timeout(d, f).await {
-        Ok(v) => Waited::Done(v),
-        Err(_) => Waited::TimedOut,
+    tokio::pin!(f);
+    let slice = Duration::from_millis(100).min(d.max(Duration::from_millis(1)));
+    let started = std::time::Instant::now();
+    let mut virtual_elapsed = Duration::ZERO;
+    loop {
+        let step = slice.min(d.saturating_sub(virtual_elapsed)).max(Duration::from_millis(1));
+        let share = if d >= Duration::from_millis(300) { cpu_share() } else { 1.0 };
+        // a slice of `step` adjusted time lasts step / share of wall-clock time
+        match tokio::time::timeout(step.div_f64(share), &mut f).await {
+            Ok(v) => return Waited::Done(v),
+            Err(_) => {
+                virtual_elapsed += step;
+                if virtual_elapsed >= d || started.elapsed() >= d * 30 {
+                    return Waited::TimedOut;
+                }
+            }
+        }
     }
 }
 
